@@ -216,6 +216,9 @@ def project_equal(impl, ref):
             a, b = iv.split(","), v.split(",")
             if len(a) != len(b) or any(y != "*" and x != y for x, y in zip(a, b)):
                 bad.append(k)
+        elif k == "st":
+            if impl.get("res", "") != v:
+                bad.append(k)
         elif k == "resclass":
             cls = ",".join(x.split(":")[0] for x in impl.get("res", "").split(","))
             if cls != v:
@@ -242,7 +245,7 @@ class Outcome:
         self.broken = []          # shards that could not be run
 
 
-def compare_shard(pid, casefile, iout, mout, status, oc, nontrivial_key=None):
+def compare_shard(pid, casefile, iout, mout, status, oc, nontrivial_key=None, keys=None):
     cases = [l.strip() for l in open(casefile) if l.strip() and not l.startswith("#")]
     if status["model_rc"] != 0:
         oc.internal.append(("model runner failed", casefile, str(status)))
@@ -271,6 +274,8 @@ def compare_shard(pid, casefile, iout, mout, status, oc, nontrivial_key=None):
         d = D.get(cid, {})
         m = M.get(cid)
         r = R.get(cid, {})
+        if keys is not None:
+            r = {k: v for k, v in r.items() if k in keys or k in ("id", "ignmd", "ccrmask")}
         i = I.get(cid)
         if m is None:
             oc.internal.append(("no model observation", line, ""))
@@ -287,6 +292,8 @@ def compare_shard(pid, casefile, iout, mout, status, oc, nontrivial_key=None):
             continue
         if len(oc.samples) < 3 and indom:
             oc.samples.append({"case": line, "impl": {k: i[k] for k in r if k in i}, "reference": {k: v for k, v in r.items() if k != "id"}})
+        if indom and not r.get("resclass") and not r.get("res") and not r.get("st"):
+            continue      # the reference makes no claim on this case
         if indom and not kclass:
             mb = project_equal(m, r)
             if mb:
@@ -303,6 +310,13 @@ def compare_shard(pid, casefile, iout, mout, status, oc, nontrivial_key=None):
                 # must fail exactly as recorded: the implementation agrees with the model that mirrors the defect
                 keys = [k for k in r if k not in ("id", "ignmd", "ccrmask")]
                 mm = {k: m.get(k, "") for k in keys}
+                if "resclass" in mm:
+                    mm["resclass"] = ",".join(x.split(":")[0] for x in m.get("res", "").split(","))
+                if "st" in mm:
+                    mm["st"] = m.get("res", "")
+                if "err" in m.get("res", "") or "panic" in m.get("res", ""):
+                    # the recorded failure is an error outcome: only the outcome class is meaningful
+                    mm = {"resclass": ",".join(x.split(":")[0] for x in m.get("res", "").split(","))}
                 for k in ("ignmd", "ccrmask"):
                     if k in r:
                         mm[k] = r[k]
@@ -311,7 +325,10 @@ def compare_shard(pid, casefile, iout, mout, status, oc, nontrivial_key=None):
                 else:
                     oc.known[kclass] = oc.known.get(kclass, 0) + 1
         else:
-            fb = [k for k in m if k != "id" and i.get(k, "") != m[k]]
+            if "err" in m.get("res", "") or "panic" in m.get("res", ""):
+                fb = [k for k in ("res",) if i.get(k, "") != m[k]]
+            else:
+                fb = [k for k in m if k != "id" and i.get(k, "") != m[k]]
             if fb:
                 oc.fidelity_notes += 1
                 if len(oc.fidelity_samples) < 5:
@@ -399,6 +416,23 @@ def check(pid, tier, seed, replay=None):
             shards = [("replay", [rp["case"]], rp.get("profile", "rel"))]
         else:
             shards = []
+            # corpus first: witnesses of the recorded known findings and minimised earlier failures
+            corpus = []
+            known0, _ = load_known()
+            for cls, (wit, _what) in known0.get(pid, {}).items():
+                wp = os.path.join(VERIF, wit)
+                if os.path.exists(wp):
+                    try:
+                        corpus.append(json.load(open(wp))["case"])
+                    except Exception:
+                        pass
+            cdir = os.path.join(VERIF, "corpus", pid)
+            if os.path.isdir(cdir):
+                for f in sorted(os.listdir(cdir)):
+                    corpus += [l.strip() for l in open(os.path.join(cdir, f)) if l.strip() and not l.startswith("#")]
+            if corpus:
+                corpus = ["id=c%x %s" % (k, l.split(" ", 1)[1]) for k, l in enumerate(corpus)]
+                shards.append(("corpus", corpus, "rel"))
             for name, lines, prof in gen.generate(tier, seed, gen_info):
                 shards.append((name, lines, prof))
         jobs = []
@@ -412,7 +446,7 @@ def check(pid, tier, seed, replay=None):
             jobs.append((exes[prof], cf, getattr(gen, "SHARD_TIMEOUT", 600)))
         with Pool(min(NPROC, max(1, len(jobs)))) as pool:
             for casefile, iout, mout, cons, status in pool.imap_unordered(run_shard, jobs):
-                compare_shard(pid, casefile, iout, mout, status, oc, getattr(gen, "nontrivial_key", None))
+                compare_shard(pid, casefile, iout, mout, status, oc, getattr(gen, "nontrivial_key", None), getattr(gen, "KEYS", None))
                 if replay:
                     for suffix, tagname in ((".impl", "implementation"), (".model", "model/reference")):
                         if os.path.exists(casefile + suffix):
